@@ -33,6 +33,7 @@ def run(ctx):
         if ok_make:
             pr = vlib.check_properties_file(ctx, os.path.join(vlib.COQ, "Props/C03.v"), cone)
     proof_ok = bool(pr and pr["ok"])
+    apcost = hc.libfunc_ap_cost(ctx, vlib.cone_files("Libfuncs")) if ok_make else None
 
     fault = hc.run_fault(ctx) if ok_build else None
 
@@ -76,6 +77,7 @@ def run(ctx):
         "explored_only": sorted(set(fs.get("wrappers_run", [])) - set(verified)),
         "print_assumptions": (pr or {}).get("axioms", []),
         "translator": (gen or {}).get("summary", {}),
+        "libfunc_ap_cost": apcost or {"ok": False},
         "proof_times_s": hc.proof_times(make_out),
         "evaluations": fs.get("mutated_runs", 0),
         "distinct_nontrivial": fs.get("distinct_nontrivial", 0),
